@@ -232,8 +232,8 @@ class ToRat:
     def __init__(self, atom: Callable[[ast.AST], Optional[Rat]], env: Optional[Dict[str, Rat]] = None,
                  funcs: Optional[Dict[str, Callable]] = None):
         self.atom = atom
-        self.env = env or {}
-        self.funcs = funcs or {}
+        self.env = env if env is not None else {}
+        self.funcs = funcs if funcs is not None else {}
 
     def __call__(self, e: ast.AST) -> Rat:
         if isinstance(e, ast.Constant) and isinstance(e.value, (int, float)) and not isinstance(e.value, bool):
